@@ -59,6 +59,11 @@ def snap(o, depth=0):
     if hasattr(o, '_params') and hasattr(o, 'positions'):
         return ('aper', cname,
                 tuple(snap(np.asarray(getattr(o, p))) for p in o._params))
+    if cname.endswith(('Background', 'BackgroundRMS')) or cname == 'SigmaClip':
+        # estimator / clipping objects: their public configuration
+        return ('est', cname, tuple(sorted(
+            (k, snap(v, depth + 1) if type(v).__name__ == 'SigmaClip' else repr(v))
+            for k, v in vars(o).items() if not k.startswith('__'))))
     if cname == 'SegmentationImage':
         return ('segm', snap(o.data), tuple(int(x) for x in o.labels))
     if isinstance(o, (tuple, list)):
@@ -138,7 +143,9 @@ def check_entry_matrix(case, ctx):
                     'parents': 'array behind a view', 'init': 'init_params table',
                     'psf': 'PSF model', 'aper': 'aperture', 'segm':
                     'segmentation image', 'kernel': 'kernel', 'footprint':
-                    'footprint', 'model_table': 'parameter table'}.get(d[0], d[0])
+                    'footprint', 'model_table': 'parameter table',
+                    'bkg_est': 'background estimator object',
+                    'rms_est': 'background RMS estimator object'}.get(d[0], d[0])
             raise Violation('input_modified',
                             f'{name} ({rep}, {cond}) modified the caller\'s '
                             f'{role} ({d[1]})'
